@@ -82,12 +82,14 @@ type Trans struct {
 	pendingFinals    map[int]string
 	pendingMaintains []func(State) string
 	selfTerm         string
+	topFrame         *Frame
+	snapshots        map[string]State
 	hdrOnce          sync.Once
 	hdr              string
 }
 
 func NewTrans(P *Prog) *Trans {
-	t := &Trans{P: P, env: NewTypeEnv(), uses: map[string]bool{"base": true}, fnIDs: map[*ssa.Function]int{}, ghosts: map[string]string{}, obNames: map[string]int{}, trustedUsed: map[string]bool{}, underContract: map[string]bool{}}
+	t := &Trans{P: P, env: NewTypeEnv(), uses: map[string]bool{"base": true}, fnIDs: map[*ssa.Function]int{}, ghosts: map[string]string{}, obNames: map[string]int{}, trustedUsed: map[string]bool{}, underContract: map[string]bool{}, snapshots: map[string]State{}}
 	t.env.addrFields = P.addrFields
 	t.env.Comp("alloc", "Int")
 	return t
